@@ -70,6 +70,17 @@ CHECKS = {
              'and validated event by event by TLC; an exception escaping event() is an unmatched event.',
         note='The scenario of a recorded run is derived from the observation (solution counts from the real tracer). '
              'Physical correctness of the signals is C01/C03/C07 material and not examined.'),
+    'C19': dict(
+        spec='Detector.tla', design='4.7',
+        text='Detector.tla models detectors as a heap of antennas, (nested) lists, strings, stations and combined detectors '
+             'with +, +=, sum building subsets exactly as the code does; TLC checks EachOnce, PlusIsConcat, SumIsConcat, '
+             'NoAntennaAboveIce, TriggeredIffAnyHit, ClearAll and RejectedLeavesUnchanged over all histories up to depth 5 '
+             '(6 thorough). Graph cover + depth-16 simulations run on real Detector subclasses that record received '
+             'keywords; after every step every detector is iterated / measured / indexed and compared with Flat, hit '
+             'states and keyword dispatch of build and trigger calls are compared, and associativity of sum / + is '
+             'checked on the real objects.',
+        note='Antennas noiseless (Monte-Carlo truth equals hit); operands of + disjoint; keyword sets that the code '
+             'documents as TypeError (identical subsets, keyword nobody accepts) are excluded.'),
 }
 
 NOT_APPLICABLE = {
